@@ -92,9 +92,6 @@ class Eff:
 
     def then(self, o):
         absolute = lambda l: any(str(t).startswith("frame:") for t in l.t)
-        if absolute(o.d) and o.d.c == 0 and all(str(t).startswith("frame:") for t in o.d.t):
-            # a bare marker (a frame being set up, with the stack pointer moved separately): it tags the path, the height stays
-            return Eff(self.d + o.d, self.low)
         if absolute(o.d):
             # absolute assignment of sp (frame entry / exit): the net result no longer depends on what came before
             return Eff(o.d, self.low)
@@ -442,7 +439,7 @@ class Effects:
             pre = self.eff(n.get("args", []), where)
             if (n.get("callee") or "").endswith("Frame::new") and len(n.get("args", [])) == 2:
                 # a frame is being set up: the path enters a callee (however the stack pointer was moved past its locals)
-                return self.seq(pre, {(Eff(Lin(0, {"frame:enter": 1}), Lin(0)), "fall")})
+                return self.seq(pre, {(Eff(Lin(0, {"mark:enter": 1}), Lin(0)), "fall")})
             return pre
         # generic: children in order
         cur = Z
@@ -509,7 +506,7 @@ def opcode_effects(F, R):
     out = {}
     exits = set()
     def strip_frame(l, extra=()):
-        return Lin(l.c, {k: v for k, v in l.t.items() if not str(k).startswith("frame:") and not str(k).endswith(".num_locals")})
+        return Lin(l.c, {k: v for k, v in l.t.items() if not str(k).startswith(("frame:", "mark:")) and not str(k).endswith(".num_locals")})
 
     for op in ("Return", "ReturnValue"):
         a = arms.get(op)
@@ -538,9 +535,10 @@ def opcode_effects(F, R):
         raw = sorted(map(repr, oks))
         # frame rule: a path that enters a callee frame (bp = sp - n, sp := bp + num_locals) is continued by the callee's
         # Return / ReturnValue (sp := bp - 1, then one push): seen from the caller it lands at bp = sp - n
-        if any("frame:enter" in d.d.t for d in oks):
+        enters = lambda d: "frame:enter" in d.d.t or "mark:enter" in d.d.t     # (mark: a frame built with the stack pointer moved separately)
+        if any(enters(d) for d in oks):
             E.frames["enter"] = raw
-        ok_d = {strip_frame(d.d) + (E.exit_const() if "frame:enter" in d.d.t else Lin(0)) if "frame:enter" in d.d.t else d.d for d in oks}
+        ok_d = {strip_frame(d.d) + E.exit_const() if enters(d) else d.d for d in oks}
         loc = "src/vm/interpreter.rs:%s" % a.get("line")
         if len(ok_d) == 1:
             out[op] = next(iter(ok_d))
